@@ -146,6 +146,9 @@ impl TryFrom<&AST> for GenericFunctionArg {
                                     }
                                     Node::Int { .. } => Name::from(clss::python::INT_PRIMITIVE),
                                     Node::Real { .. } => Name::from(clss::python::FLOAT_PRIMITIVE),
+                                    Node::ENum { num, .. } if num.contains('.') => {
+                                        Name::from(clss::python::FLOAT_PRIMITIVE)
+                                    }
                                     Node::ENum { .. } => Name::from(clss::python::INT_PRIMITIVE),
                                     _ => {
                                         return Err(vec![TypeErr::new(
